@@ -19,6 +19,8 @@ pub const EXPRS: &[&str] = &[
     "to_string(`1`)",                   // two literals that are equal by value but spelled differently
     "to_string(`1.0`)",
     "type('1')",                        // a raw string with the same inner text as a JSON literal above
+    "length('[1, 2, 3, 4, 5, 6, 7, 8, 9, 10, 11]')",  // long raw string ...
+    "length(`[1, 2, 3, 4, 5, 6, 7, 8, 9, 10, 11]`)",  // ... and a JSON literal with the same inner text
 ];
 
 pub fn docs() -> Vec<Value> {
@@ -30,7 +32,7 @@ pub fn docs() -> Vec<Value> {
     ]
 }
 
-pub const N_E: usize = 11;
+pub const N_E: usize = 13;
 pub const N_D: usize = 4;
 
 #[derive(Clone, Copy, Debug, PartialEq, Eq, Hash)]
@@ -247,6 +249,53 @@ impl Model for Hist {
     }
 }
 
+/// A deterministic long history on one thread: k distinct expressions compiled and searched
+/// (recording tree and result), then revisited in reverse, strided, A-B-A and failing-heavy
+/// orders; every revisit must reproduce the recorded observation.
+pub fn long_history_ladder(k: usize) -> (u64, Option<(String, String, String)>) {
+    let doc = value_to_var(&json!({"a": {"b": [1, 2, 3]}, "rows": [{"c": 1}, {"c": 2}], "s": "x"}));
+    let exprs: Vec<String> = (0..k)
+        .map(|i| match i % 6 {
+            0 => format!("a.b[{}]", i % 5),
+            1 => format!("rows[*].c | [{}]", i % 3),
+            2 => format!("{{k{}: s, v: `{}`}}", i, i),
+            3 => format!("abs('{}')", i),       // always fails (type error)
+            4 => format!("[length(s), `{}`, '{}']", i, i),
+            _ => format!("sort_by(rows, &c)[{}].c || 'k{}'", i % 4, i),
+        })
+        .collect();
+    let observe = |e: &str| -> String {
+        match guarded(|| match jmespath::compile(e) {
+            Ok(x) => {
+                let c = x.clone();
+                format!("{:?} => {}", x.as_ast(), match c.search(&doc) { Ok(v) => format!("ok {}", var_to_value(&v)), Err(e) => format!("err {:?}", e) })
+            }
+            Err(e) => format!("compile err {:?}", e),
+        }) {
+            Ok(s) => s,
+            Err(m) => format!("PANIC {}", m),
+        }
+    };
+    let mut n = 0u64;
+    let first: Vec<String> = exprs.iter().map(|e| { n += 1; observe(e) }).collect();
+    let mut orders: Vec<Vec<usize>> = Vec::new();
+    orders.push((0..k).rev().collect());
+    orders.push((0..k).map(|i| (i * 7) % k).collect());
+    orders.push((0..k).flat_map(|i| vec![i, (i + 1) % k, i]).collect());
+    orders.push((0..k).flat_map(|i| vec![3 + 6 * (i % (k / 6).max(1)), i]).map(|i| i % k).collect());
+    orders.push((0..k).collect());
+    for (oi, order) in orders.iter().enumerate() {
+        for &i in order {
+            n += 1;
+            let o = observe(&exprs[i]);
+            if o != first[i] {
+                return (n, Some((format!("order {} revisiting expression {} ({:?}) after {} operations", oi, i, exprs[i], n), first[i].clone(), o)));
+            }
+        }
+    }
+    (n, None)
+}
+
 /// first use of the default runtime: each operation as the first of a fresh process
 pub fn first_child(history: &[usize]) -> i32 {
     let ops = all_ops();
@@ -343,6 +392,19 @@ pub fn run(tier: Tier) -> i32 {
     st.validated += nops as u64 + N_E as u64;
     st.count("fresh_process_baselines", nops as u64 + N_E as u64);
     rep.guard("fresh-process baselines are well-formed", model.baseline.iter().all(|b| !b.starts_with("fresh process failed")));
+    // long-history ladder: many distinct expressions compiled and searched on one thread, then
+    // revisited in other orders (bounded caches, eviction, counters that only move after hundreds of calls)
+    {
+        let h = std::thread::spawn(move || long_history_ladder(tier.pick(400, 1500)));
+        let (n, bad) = h.join().unwrap();
+        st.evaluations += n;
+        st.validated += n;
+        st.transitions += n;
+        st.count("long_history_operations", n);
+        if let Some((what, want, got)) = bad {
+            st.violate(Violation { key: "C13/long-history".into(), check: "long-history-ladder".into(), case: json!({"kind": "long-history", "n": tier.pick(400, 1500), "what": what}), expected: want, actual: got });
+        }
+    }
     rep.rule = "explicit-state BFS over all operation histories up to the depth bound (operations: compile / clone / search on 4 shared documents / drop, over 7 expressions incl. a failing call, by-functions with nested calls, a shared literal, a failing compile, a custom runtime); the state is the history, the invariant replays it on fresh real objects and compares the last operation's full observation (tree with offsets, value, or complete error struct) with the same operation on an empty history, and every shared document with its original JSON. Plus each operation as the first operation of a fresh process. non-trivial = non-empty history".into();
     rep.bounds = json!({"depth": depth, "operations": nops, "expressions": EXPRS, "documents": docs()});
     rep.stats = st;
@@ -366,6 +428,15 @@ pub fn replay(case: &Value) -> Option<(String, bool)> {
             let last = *idx.last()?;
             let want = m.baseline[last].clone();
             Some((format!("expected {} actual {:?}", want, obs.last()), obs.last() != Some(&want)))
+        }
+        "long-history" => {
+            let n = case["n"].as_u64()? as usize;
+            let h = std::thread::spawn(move || long_history_ladder(n));
+            let (_, bad) = h.join().ok()?;
+            Some(match bad {
+                Some((w, e, g)) => (format!("{}: expected {} got {}", w, e, g), true),
+                None => ("every revisit reproduces the first observation".into(), false),
+            })
         }
         "bfs-single-worker" => {
             let depth = case["depth"].as_u64()? as usize;
